@@ -1,0 +1,79 @@
+//go:build verif
+
+package service
+
+import "github.com/ludo-technologies/pyscn/domain"
+
+// Re-exports of the unexported filter / sort / summary functions of the
+// analysis services for the verification driver (property C16).
+
+// VerifReportComplexity runs the tail of ComplexityServiceImpl.Analyze
+// (filter, sort, summary) on the given functions.
+func VerifReportComplexity(functions []domain.FunctionComplexity, files int, req domain.ComplexityRequest) ([]domain.FunctionComplexity, domain.ComplexitySummary) {
+	s := &ComplexityServiceImpl{}
+	filtered := s.filterFunctions(functions, req)
+	sorted := s.sortFunctions(filtered, req.SortBy)
+	return sorted, s.generateSummary(sorted, files, req)
+}
+
+// VerifReportComplexityRisk exposes calculateRiskLevel.
+func VerifReportComplexityRisk(c int, req domain.ComplexityRequest) domain.RiskLevel {
+	return (&ComplexityServiceImpl{}).calculateRiskLevel(c, req)
+}
+
+// VerifReportComplexityKey exposes getComplexityDistributionKey.
+func VerifReportComplexityKey(c int) string {
+	return (&ComplexityServiceImpl{}).getComplexityDistributionKey(c)
+}
+
+// VerifReportCBO runs the tail of CBOServiceImpl.Analyze on the given classes.
+func VerifReportCBO(classes []domain.ClassCoupling, files int, req domain.CBORequest) ([]domain.ClassCoupling, domain.CBOSummary) {
+	s := &CBOServiceImpl{}
+	if len(classes) == 0 {
+		return []domain.ClassCoupling{}, s.generateSummary([]domain.ClassCoupling{}, files, req)
+	}
+	filtered := s.filterClasses(classes, req)
+	sorted := s.sortClasses(filtered, req.SortBy)
+	return sorted, s.generateSummary(sorted, files, req)
+}
+
+// VerifReportCBOKey exposes getCBORange.
+func VerifReportCBOKey(c int) string { return (&CBOServiceImpl{}).getCBORange(c) }
+
+// VerifReportLCOM runs the tail of LCOMServiceImpl.Analyze on the given classes.
+func VerifReportLCOM(classes []domain.ClassCohesion, files int, req domain.LCOMRequest) ([]domain.ClassCohesion, domain.LCOMSummary) {
+	s := &LCOMServiceImpl{}
+	if len(classes) == 0 {
+		return []domain.ClassCohesion{}, s.generateSummary([]domain.ClassCohesion{}, files, req)
+	}
+	filtered := s.filterClasses(classes, req)
+	sorted := s.sortClasses(filtered, req.SortBy)
+	return sorted, s.generateSummary(sorted, files, req)
+}
+
+// VerifReportLCOMKey exposes getLCOMRange.
+func VerifReportLCOMKey(c int) string { return (&LCOMServiceImpl{}).getLCOMRange(c) }
+
+// VerifReportDeadCode runs the tail of DeadCodeServiceImpl.Analyze
+// (filterFiles, sortFiles, generateSummary) on the given files.
+func VerifReportDeadCode(files []domain.FileDeadCode, processed int, req domain.DeadCodeRequest) ([]domain.FileDeadCode, domain.DeadCodeSummary) {
+	s := &DeadCodeServiceImpl{}
+	filtered := s.filterFiles(files, req)
+	sorted := s.sortFiles(filtered, req.SortBy)
+	return sorted, s.generateSummary(sorted, processed, req)
+}
+
+// VerifReportFilterFindings exposes filterFindingsBySeverity.
+func VerifReportFilterFindings(findings []domain.DeadCodeFinding, min domain.DeadCodeSeverity) []domain.DeadCodeFinding {
+	return (&DeadCodeServiceImpl{}).filterFindingsBySeverity(findings, min)
+}
+
+// VerifReportClones runs the tail of CloneService.DetectClones
+// (pair / group filters and statistics) on the given pairs and groups.
+func VerifReportClones(clones []*domain.Clone, pairs []*domain.ClonePair, groups []*domain.CloneGroup, req *domain.CloneRequest,
+	fragments, files, lines, nodes int) ([]*domain.ClonePair, []*domain.CloneGroup, *domain.CloneStatistics) {
+	s := &CloneService{}
+	p := s.filterClonePairs(pairs, req)
+	g := s.filterCloneGroups(groups, req)
+	return p, g, s.createStatistics(clones, p, g, fragments, files, lines, nodes)
+}
